@@ -10,7 +10,7 @@ satisfiable by the `example` at the end):
                        `from_dmrs` reads as an argument target (`node.type in 'xeipu'`).
 All statements hold for EVERY choice `chosen` of scope labels by `scope.conjoin`.
 -/
-import Verif.C04.RoundTrip3
+import Verif.C04.RoundTrip8
 
 namespace Verif.C04
 open Verif.Sem
@@ -32,101 +32,7 @@ theorem roundtrip_index (m : MRS) (hN : BaseIdsDistinct m) (hR : RolesOk m = tru
       ∀ k e', m2.rels[k]? = some e' → e'.isQuantifier = false → e'.iv = some v2 → k = j := by
   obtain ⟨reps, topLbl, sc, lbl, leqs, idToIv, ns, scs, lo, hi, C⟩ :=
     rtctx m hN hR chosen d m2 h1 h2
-  have hidx := C.spec.index
-  constructor
-  · intro hnone
-    unfold indexOf at hidx
-    rw [hnone] at hidx
-    simp only [Except.ok.injEq] at hidx
-    exact hidx.symm
-  · intro j hj
-    obtain ⟨v, j', e, _, hej, hq, hiv, hnj⟩ := (index_shape m d h1).1 _ hj
-    have : j' = j := (nidAt_inj _ _ hnj).symm
-    subst this
-    obtain ⟨n, e2, iv, hn, hid, he2, ps, he2iv⟩ := C.at_pos j' e hej
-    -- the index variable
-    unfold indexOf at hidx
-    rw [hj] at hidx
-    simp only [if_neg (nidAt_ne_zero j')] at hidx
-    have hivk : dlookup (nidAt j') idToIv = some iv := by rw [← hid]; exact ps.ivOk
-    rw [hivk] at hidx
-    simp only [Except.ok.injEq] at hidx
-    -- a link with role RSTR leaving node j' would make `e` a quantifier
-    have noRstr : ∀ l ∈ d.links, l.start = n.id → l.role ≠ RESTRICTION_ROLE := by
-      intro l hl hs hr
-      have hjust := links_justified m hN reps d C.hreps h1 l hl
-      have := rstr_link_quantifier m reps l hjust hr j' e (by rw [hs, hid]) hej
-      rw [hq] at this; cases this
-    have hnq2 : e2.isQuantifier = false := by
-      cases hq2 : e2.isQuantifier with
-      | false => rfl
-      | true =>
-        exfalso
-        unfold EP.isQuantifier at hq2
-        rw [List.any_eq_true] at hq2
-        obtain ⟨a, ha, har⟩ := hq2
-        have har : a.1 = RESTRICTION_ROLE := by simpa using har
-        cases ps.origin a ha with
-        | arg0 h =>
-          rw [h] at har
-          have har' : INTRINSIC_ROLE = RESTRICTION_ROLE := har
-          exact absurd har' (by decide)
-        | ns x hx hid' hr hv =>
-          obtain ⟨l, hl, rfl, _⟩ := C.spec.nsMem x hx
-          exact noRstr l hl hid' (by rw [← har, hr])
-        | lheq x hx hid' hr hrel hv =>
-          obtain ⟨l, hl, a1, a2, _⟩ := C.spec.scMem x hx
-          exact noRstr l hl (by rw [← a1, hid']) (by rw [← a2, ← hr, har])
-        | qeq x hx hid' hr hrel hnew hhc =>
-          obtain ⟨l, hl, a1, a2, _⟩ := C.spec.scMem x hx
-          exact noRstr l hl (by rw [← a1, hid']) (by rw [← a2, ← hr, har])
-        | body hr _ _ _ => rw [hr] at har; exact absurd har (by decide)
-    refine ⟨iv, e2, hidx.symm, he2, he2iv, hnq2, ?_⟩
-    -- uniqueness
-    intro k e' hk hq' hiv'
-    have hklt : k < m.rels.length := by
-      have := (List.getElem?_eq_some_iff.mp hk).1
-      rw [C.spec.len, (nodes_shape m hN d h1).1] at this
-      exact this
-    obtain ⟨nk, ek2, ivk, hnk, hidk, hek2, psk, hek2iv⟩ :=
-      C.at_pos k m.rels[k] (List.getElem?_eq_getElem hklt)
-    rw [hk] at hek2
-    cases hek2
-    rw [hiv'] at hek2iv
-    simp only [Option.some.injEq] at hek2iv
-    have hjq : n.id ∉ quantStarts d := by
-      rw [hid]; exact not_quantStart_of_nonquant m hN reps d C.hreps h1 j' e hej hq
-    have hkq : nk.id ∉ quantStarts d := by
-      intro hin
-      unfold quantStarts at hin
-      obtain ⟨l, hl, hs⟩ := List.mem_map.mp hin
-      rw [List.mem_filter] at hl
-      obtain ⟨hl1, hl2⟩ := hl
-      have hl2 : l.role = RESTRICTION_ROLE := by simpa using hl2
-      -- the RSTR link is read back, so `e'` has a RSTR argument
-      have hin' : ∃ v, (RESTRICTION_ROLE, v) ∈ e'.args := by
-        obtain ⟨_, c2, c3⟩ := psk.complete (C.rf nk.id)
-        by_cases hsc : ∃ r, scRel l = some r
-        · obtain ⟨r, hr⟩ := hsc
-          obtain ⟨lb, _, hmem⟩ := C.spec.scComplete l hl1 r hr
-          rcases c3 _ hmem hs with ⟨_, hm⟩ | ⟨_, hole, hm, _⟩
-          · exact ⟨_, by rw [← hl2]; exact hm⟩
-          · exact ⟨_, by rw [← hl2]; exact hm⟩
-        · have hp1 : l.post ≠ H_POST := by
-            intro hp; apply hsc; unfold scRel; rw [hp]; simp [H_POST, HEQ_POST]
-          have hp2 : l.post ≠ HEQ_POST := by
-            intro hp; apply hsc; unfold scRel; rw [hp]; simp
-          have hnsl := nsLink_of_post m hN hS reps d C.hreps h1 l hl1
-            (by rw [hl2]; decide) hp1 hp2
-          obtain ⟨v, _, hm⟩ := c2 _ (C.spec.nsComplete l hl1 hnsl) hs
-          exact ⟨v, by rw [← hl2]; exact hm⟩
-      obtain ⟨v, hv⟩ := hin'
-      have := isQuantifier_of_rstr e' v hv
-      rw [hq'] at this; cases this
-    have hnn : nk = n := C.spec.ivInj nk (List.mem_of_getElem? hnk) n (List.mem_of_getElem? hn)
-      hkq hjq ivk iv psk.ivOk ps.ivOk (by rw [← hek2iv])
-    rw [hnn, hid] at hidk
-    exact (nidAt_inj _ _ hidk).symm
+  exact C.index_rt hS
 
 /-- **Top.**  If the DMRS top is node `10000+j` (by `top_shape`: the first representative of
 the scope the top of `m` selects), then the MRS that comes back has a top handle, and the scope it
@@ -168,5 +74,98 @@ theorem roundtrip_top (m : MRS) (hN : BaseIdsDistinct m) (hR : RolesOk m = true)
       obtain ⟨id, _, hp⟩ := preds_getElem? m2 j e2 he2
       exact ⟨(id, e2), List.mem_of_getElem? hp, rfl⟩
     rw [if_pos hkey]
+
+/-! ## 2. "… converting that MRS to DMRS again gives the same nodes, top, index and set of links" -/
+
+/-
+FULL STATEMENT (not proved in this form):
+  BaseIdsDistinct m → RolesOk m → IVSorts m → RstrLinked m reps → (every scope that an argument or
+  the top selects has a representative, and every scope is held together by EQ and MOD/EQ links)
+  → the four equalities below.
+What is proved: the statement with the hypothesis `RepsAgree` — the representatives of the MRS
+that comes back sit at the same positions, scope by scope, as those of the source — in place of
+the last condition.  `RepsAgree` is decidable; the driver evaluates it on every generated case
+(it holds on all cases of the property's space without a starved group, i.e. outside finding F08).
+Missing for the full statement: invariance of `scope.descendants` / `scope.representatives` under
+the positional correspondence between `m` and `m2`.
+-/
+
+/-- the representatives of two MRSs sit at the same positions, scope by scope. -/
+def RepsAgree (m m2 : MRS) (reps reps2 : Reps) : Prop := repsPos m reps = repsPos m2 reps2
+
+instance (m m2 : MRS) (reps reps2 : Reps) : Decidable (RepsAgree m m2 reps reps2) := by
+  unfold RepsAgree; infer_instance
+
+/-- **Second conversion.**  `fromMrs (fromDmrs (fromMrs m))` has the same nodes, the same top, the
+same index and the same SET of links as `fromMrs m`, for every choice of scope labels by
+`conjoin` — whenever the three conversions succeed, the identifiers of `m` are pairwise distinct,
+roles are `dict` keys other than `MOD`, intrinsic variables have sorts `from_dmrs` reads, every
+quantifier keeps its RSTR link, and the representatives agree positionally. -/
+theorem second_conversion_stable_partial (m : MRS) (hN : BaseIdsDistinct m)
+    (hR : RolesOk m = true) (hS : IVSorts m = true) (chosen : List Var) (d : DMRS) (m2 : MRS)
+    (d2 : DMRS) (h1 : fromMrs m = .ok d) (h2 : fromDmrs chosen d = .ok m2)
+    (h3 : fromMrs m2 = .ok d2) (reps reps2 : Reps) (hr : m.representatives = .ok reps)
+    (hr2 : m2.representatives = .ok reps2) (hQ : RstrLinked m reps = true)
+    (hA : RepsAgree m m2 reps reps2) :
+    d2.nodes = d.nodes ∧ d2.top = d.top ∧ d2.index = d.index ∧
+    ∀ l, l ∈ d2.links ↔ l ∈ d.links := by
+  obtain ⟨reps', topLbl, sc, lbl, leqs, idToIv, ns, scs, lo, hi, C⟩ :=
+    rtctx m hN hR chosen d m2 h1 h2
+  have : reps' = reps := by
+    have := C.hreps
+    rw [hr] at this
+    simpa using this.symm
+  subst this
+  exact ⟨C.second_nodes hS hQ d2 h3, C.second_top hS reps2 hr2 hA d2 h3,
+    C.second_index hS d2 h3, C.second_links hR hS reps2 hr2 hA d2 h3⟩
+
+/-- the identifiers of the MRS that comes back are pairwise distinct, so every theorem of
+`Props.lean` (link justification, node/top/index shape, totality) applies to the second
+conversion as well. -/
+theorem roundtrip_baseIds (m : MRS) (hN : BaseIdsDistinct m) (hR : RolesOk m = true)
+    (hS : IVSorts m = true) (chosen : List Var) (d : DMRS) (m2 : MRS)
+    (h1 : fromMrs m = .ok d) (h2 : fromDmrs chosen d = .ok m2) : BaseIdsDistinct m2 := by
+  obtain ⟨reps, topLbl, sc, lbl, leqs, idToIv, ns, scs, lo, hi, C⟩ :=
+    rtctx m hN hR chosen d m2 h1 h2
+  exact C.baseIds2 hS
+
+/-- the hypotheses are satisfiable together, on a structure with a quantifier, a modifier sharing
+a label, a qeq-scopal and a label-scopal argument: "the big dog does not bark" (with the negated
+clause also given as a direct label argument of a second operator). -/
+def bigDog : MRS :=
+  { top := some ⟨"h", 0⟩, index := some ⟨"e", 2⟩,
+    rels := [ { predicate := "_the_q", label := ⟨"h", 4⟩,
+                args := [("ARG0", ⟨"x", 3⟩), ("RSTR", ⟨"h", 5⟩), ("BODY", ⟨"h", 6⟩)] },
+              { predicate := "_big_a_1", label := ⟨"h", 7⟩,
+                args := [("ARG0", ⟨"e", 8⟩), ("ARG1", ⟨"x", 3⟩)] },
+              { predicate := "_dog_n_1", label := ⟨"h", 7⟩, args := [("ARG0", ⟨"x", 3⟩)] },
+              { predicate := "neg", label := ⟨"h", 1⟩,
+                args := [("ARG0", ⟨"e", 9⟩), ("ARG1", ⟨"h", 10⟩)] },
+              { predicate := "_bark_v_1", label := ⟨"h", 11⟩,
+                args := [("ARG0", ⟨"e", 2⟩), ("ARG1", ⟨"x", 3⟩)] },
+              { predicate := "_again_a_1", label := ⟨"h", 1⟩,
+                args := [("ARG0", ⟨"e", 12⟩), ("ARG1", ⟨"h", 13⟩)] },
+              { predicate := "_rain_v_1", label := ⟨"h", 13⟩, args := [("ARG0", ⟨"e", 14⟩)] } ],
+    hcons := [⟨⟨"h", 0⟩, "qeq", ⟨"h", 1⟩⟩, ⟨⟨"h", 5⟩, "qeq", ⟨"h", 7⟩⟩,
+              ⟨⟨"h", 10⟩, "qeq", ⟨"h", 11⟩⟩] }
+
+/-- all three conversions succeed on `m`, every quantifier keeps its RSTR link, the
+representatives agree, and the second conversion has the same nodes. -/
+def stableCheck (m : MRS) (chosen : List Var) : Bool :=
+  match m.representatives, fromMrs m with
+  | .ok reps, .ok d =>
+    RstrLinked m reps &&
+    (match fromDmrs chosen d with
+     | .ok m2 =>
+       (match m2.representatives, fromMrs m2 with
+        | .ok reps2, .ok d2 => decide (RepsAgree m m2 reps reps2) && decide (d2.nodes = d.nodes)
+        | _, _ => false)
+     | _ => false)
+  | _, _ => false
+
+example :
+    BaseIdsDistinct bigDog ∧ RolesOk bigDog = true ∧ IVSorts bigDog = true ∧
+    bigDog.isWellFormed = true ∧ stableCheck bigDog [] = true :=
+  ⟨by decide, by decide, by decide, by decide, by decide⟩
 
 end Verif.C04
